@@ -12,6 +12,7 @@ use crate::core::tape::{
 };
 use serde::{Deserialize, Serialize};
 use serde_json::{json, Value};
+use smartcore::api::{Predictor, SupervisedEstimator};
 use smartcore::linalg::naive::dense_matrix::DenseMatrix;
 use smartcore::math::num::RealNumber;
 use smartcore::svm::svc::{SVCParameters, SVC};
@@ -258,7 +259,7 @@ impl C10 {
                     .with_tol(T::from_f64(tol_eff).unwrap())
                     .with_c(T::from_f64(c_eff).unwrap())
             };
-            guarded(|| SVC::fit(&x, &y, params))
+            guarded(|| if case.ctor / 2 == 1 { <SVC<T, DenseMatrix<T>, _> as SupervisedEstimator<DenseMatrix<T>, Vec<T>, _>>::fit(&x, &y, params) } else { SVC::fit(&x, &y, params) })
         };
         let log = guard.log();
         drop(guard);
@@ -373,7 +374,7 @@ impl C10 {
         q.extend(case.queries.iter().map(|r| r.iter().map(|v| T::from_f64(*v).unwrap().to_f64().unwrap()).collect::<Vec<f64>>()));
         let qm: DenseMatrix<T> = mat(&q);
         let before = count.get();
-        match guarded(|| (model.decision_function(&qm), model.predict(&qm))) {
+        match guarded(|| (model.decision_function(&qm), if case.ctor / 2 == 1 { Predictor::<DenseMatrix<T>, Vec<T>>::predict(&model, &qm) } else { model.predict(&qm) })) {
             Err(msg) => rep.fail("panic", "svc-predict", format!("{}: decision_function/predict panicked: {}", ctx, msg)),
             Ok((Ok(dv), Ok(lab))) => {
                 let dv: Vec<f64> = dv.iter().map(|v| v.to_f64().unwrap_or(f64::NAN)).collect();
@@ -485,7 +486,7 @@ impl C10 {
                     .with_tol(T::from_f64(tol_eff).unwrap())
                     .with_c(T::from_f64(c_eff).unwrap())
             };
-            guarded(|| SVR::fit(&x, &y, params))
+            guarded(|| if case.ctor / 2 == 1 { <SVR<T, DenseMatrix<T>, _> as SupervisedEstimator<DenseMatrix<T>, Vec<T>, _>>::fit(&x, &y, params) } else { SVR::fit(&x, &y, params) })
         };
         let log = guard.log();
         drop(guard);
@@ -570,7 +571,7 @@ impl C10 {
         let mut q: Vec<Vec<f64>> = xs.clone();
         q.extend(case.queries.iter().map(|r| r.iter().map(|v| T::from_f64(*v).unwrap().to_f64().unwrap()).collect::<Vec<f64>>()));
         let qm: DenseMatrix<T> = mat(&q);
-        match guarded(|| model.predict(&qm)) {
+        match guarded(|| if case.ctor / 2 == 1 { Predictor::<DenseMatrix<T>, Vec<T>>::predict(&model, &qm) } else { model.predict(&qm) }) {
             Err(msg) => rep.fail("panic", "svr-predict", format!("{}: predict panicked: {}", ctx, msg)),
             Ok(Err(e)) => rep.fail("predict-error", "svr-predict", format!("{}: predict failed: {}", ctx, e)),
             Ok(Ok(pr)) => {
@@ -946,7 +947,7 @@ fn gen_case(batch: &str, index: u64, seed: u64) -> Case {
                 1 => KSpec { kind: "rbf".into(), gamma: 0.5, degree: 0.0, coef0: 0.0 },
                 _ => KSpec { kind: "poly".into(), gamma: 0.5, degree: 2.0, coef0: 1.0 },
             };
-            Case { model: "svc".into(), x, y, kernel, c: [0.1, 1.0, 10.0][(index % 3) as usize], tol: 1e-3, epoch: 1, eps: 0.0, f32m: false, queries: vec![vec![0.25; small_datasets()[*di].0[0].len()]], budget: DEFAULT_BUDGET, tape: TapeSpec::prng(tape_seed).with_prefix(words.clone()), kind: "forced-permutation/exhaustive".into(), ctor: (seed % 2) as u8 }
+            Case { model: "svc".into(), x, y, kernel, c: [0.1, 1.0, 10.0][(index % 3) as usize], tol: 1e-3, epoch: 1, eps: 0.0, f32m: false, queries: vec![vec![0.25; small_datasets()[*di].0[0].len()]], budget: DEFAULT_BUDGET, tape: TapeSpec::prng(tape_seed).with_prefix(words.clone()), kind: "forced-permutation/exhaustive".into(), ctor: (seed % 4) as u8 }
         }
         "kernels" | "kernels-f32" => {
             let m = pr.usize_in(2, 10);
@@ -964,7 +965,7 @@ fn gen_case(batch: &str, index: u64, seed: u64) -> Case {
                 // every small integer degree, including the constant kernel (degree 0)
                 kernel.degree = *pr.pick(&[0.0, 0.0, 1.0, 2.0, 3.0, 4.0, 5.0]);
             }
-            Case { model: "kernel".into(), x, y: vec![], kernel, c: 1.0, tol: 1e-3, epoch: 1, eps: 0.0, f32m, queries: vec![], budget: 0, tape: TapeSpec::prng(tape_seed), kind: "kernel-closed-form".into(), ctor: (seed % 2) as u8 }
+            Case { model: "kernel".into(), x, y: vec![], kernel, c: 1.0, tol: 1e-3, epoch: 1, eps: 0.0, f32m, queries: vec![], budget: 0, tape: TapeSpec::prng(tape_seed), kind: "kernel-closed-form".into(), ctor: (seed % 4) as u8 }
         }
         "svr-hard" | "svr-hard-tight" => {
             // the slowly converging corner the fast batch leaves out: large C times large kernel values
@@ -983,7 +984,7 @@ fn gen_case(batch: &str, index: u64, seed: u64) -> Case {
                 _ => KSpec { kind: "rbf".into(), gamma: *pr.pick(&[0.1, 0.5]), degree: 0.0, coef0: 0.0 },
             };
             let queries = (0..3).map(|_| (0..p).map(|_| r.range(-3.0, 3.0)).collect()).collect();
-            Case { model: "svr".into(), x, y, kernel, c: 100.0, tol: if batch == "svr-hard-tight" { 1e-4 } else { 1e-3 }, epoch: 0, eps: *pr.pick(&[0.0, 0.1]), f32m: false, queries, budget: 4_000_000_000, tape: TapeSpec::prng(tape_seed), kind: "svr-hard".into(), ctor: (seed % 2) as u8 }
+            Case { model: "svr".into(), x, y, kernel, c: 100.0, tol: if batch == "svr-hard-tight" { 1e-4 } else { 1e-3 }, epoch: 0, eps: *pr.pick(&[0.0, 0.1]), f32m: false, queries, budget: 4_000_000_000, tape: TapeSpec::prng(tape_seed), kind: "svr-hard".into(), ctor: (seed % 4) as u8 }
         }
         "svr-large-features" => {
             // large kernel curvature (linear kernel on features of magnitude 30..300, quadratic on ~10): steps in
@@ -999,7 +1000,7 @@ fn gen_case(batch: &str, index: u64, seed: u64) -> Case {
             let eps = *pr.pick(&[0.1, 0.2]);
             let y: Vec<f64> = x.iter().map(|row| row.iter().zip(&coef).map(|(a, b)| a * b).sum::<f64>() + 0.5 * eps * r.range(-1.0, 1.0)).collect();
             let kernel = if quad { KSpec { kind: "poly".into(), gamma: 0.5, degree: 2.0, coef0: 1.0 } } else { KSpec { kind: "linear".into(), gamma: 0.0, degree: 0.0, coef0: 0.0 } };
-            Case { model: "svr".into(), x, y, kernel, c: *pr.pick(&[0.1, 1.0]), tol: 1e-3, epoch: 0, eps, f32m: f32v, queries: vec![], budget: 500_000_000, tape: TapeSpec::prng(tape_seed), kind: "svr-large-features".into(), ctor: (seed % 2) as u8 }
+            Case { model: "svr".into(), x, y, kernel, c: *pr.pick(&[0.1, 1.0]), tol: 1e-3, epoch: 0, eps, f32m: f32v, queries: vec![], budget: 500_000_000, tape: TapeSpec::prng(tape_seed), kind: "svr-large-features".into(), ctor: (seed % 4) as u8 }
         }
         "svr-f32-resolution" => {
             // single precision with targets so large that tol lies below the resolution of the gradient values
@@ -1010,7 +1011,7 @@ fn gen_case(batch: &str, index: u64, seed: u64) -> Case {
             let yoff = *pr.pick(&[1000.0, -1000.0, 10_000.0, 100_000.0]);
             let y: Vec<f64> = (0..n).map(|_| yoff + r.range(-1.5, 1.5)).collect();
             let kernel = if pr.chance(0.7) { KSpec { kind: "rbf".into(), gamma: *pr.pick(&[0.5, 1.0]), degree: 0.0, coef0: 0.0 } } else { KSpec { kind: "linear".into(), gamma: 0.0, degree: 0.0, coef0: 0.0 } };
-            Case { model: "svr".into(), x, y, kernel, c: *pr.pick(&[10.0, 100.0]), tol: *pr.pick(&[1e-3, 1e-4]), epoch: 0, eps: *pr.pick(&[0.0, 0.1]), f32m: true, queries: vec![], budget: 500_000_000, tape: TapeSpec::prng(tape_seed), kind: "svr-f32-resolution".into(), ctor: (seed % 2) as u8 }
+            Case { model: "svr".into(), x, y, kernel, c: *pr.pick(&[10.0, 100.0]), tol: *pr.pick(&[1e-3, 1e-4]), epoch: 0, eps: *pr.pick(&[0.0, 0.1]), f32m: true, queries: vec![], budget: 500_000_000, tape: TapeSpec::prng(tape_seed), kind: "svr-f32-resolution".into(), ctor: (seed % 4) as u8 }
         }
         "svr-resonant" => {
             // parameters tuned to the data. SMO moves coefficients to the unclipped optimum of a pair,
@@ -1057,7 +1058,7 @@ fn gen_case(batch: &str, index: u64, seed: u64) -> Case {
             }
             let nq = pr.usize_in(0, 2);
             let queries = (0..nq).map(|_| (0..p).map(|_| r.range(0.0, 4.0)).collect()).collect();
-            Case { model: "svr".into(), x, y, kernel, c, tol: *pr.pick(&[1e-2, 1e-3]), epoch: 0, eps, f32m: false, queries, budget: 500_000_000, tape: TapeSpec::prng(tape_seed), kind: "svr-resonant".into(), ctor: (seed % 2) as u8 }
+            Case { model: "svr".into(), x, y, kernel, c, tol: *pr.pick(&[1e-2, 1e-3]), epoch: 0, eps, f32m: false, queries, budget: 500_000_000, tape: TapeSpec::prng(tape_seed), kind: "svr-resonant".into(), ctor: (seed % 4) as u8 }
         }
         "svr-marathon" => {
             // converging fits that need 1e6..1e8 SMO updates: tiny n (each update is cheap), one feature of magnitude
@@ -1069,7 +1070,7 @@ fn gen_case(batch: &str, index: u64, seed: u64) -> Case {
             let c = (u / (scale * scale)).min(100.0).max(0.1);
             let x: Vec<Vec<f64>> = (0..n).map(|_| vec![scale * r.range(-1.0, 1.0)]).collect();
             let y: Vec<f64> = (0..n).map(|_| r.range(-1.5, 1.5)).collect();
-            Case { model: "svr".into(), x, y, kernel: KSpec { kind: "linear".into(), gamma: 0.0, degree: 0.0, coef0: 0.0 }, c, tol: 1e-3, epoch: 0, eps: *pr.pick(&[0.0, 0.1]), f32m: false, queries: vec![], budget: 4_000_000_000, tape: TapeSpec::prng(tape_seed), kind: "svr-marathon".into(), ctor: (seed % 2) as u8 }
+            Case { model: "svr".into(), x, y, kernel: KSpec { kind: "linear".into(), gamma: 0.0, degree: 0.0, coef0: 0.0 }, c, tol: 1e-3, epoch: 0, eps: *pr.pick(&[0.0, 0.1]), f32m: false, queries: vec![], budget: 4_000_000_000, tape: TapeSpec::prng(tape_seed), kind: "svr-marathon".into(), ctor: (seed % 4) as u8 }
         }
         "svr" | "svr-f32" => {
             let n = pr.usize_in(4, 40);
@@ -1107,7 +1108,7 @@ fn gen_case(batch: &str, index: u64, seed: u64) -> Case {
             }
             let tol = if kernel.kind == "poly" && tol < 1e-3 { 1e-3 } else { tol };
             let budget = 500_000_000;
-            Case { model: "svr".into(), x, y, kernel, c, tol, epoch: 0, eps: if pr.chance(0.5) { *pr.pick(&[0.0, 0.05, 0.1, 0.5]) } else { pr.range(0.0, 0.5) }, f32m, queries, budget, tape: TapeSpec::prng(tape_seed), kind: "svr".into(), ctor: (seed % 2) as u8 }
+            Case { model: "svr".into(), x, y, kernel, c, tol, epoch: 0, eps: if pr.chance(0.5) { *pr.pick(&[0.0, 0.05, 0.1, 0.5]) } else { pr.range(0.0, 0.5) }, f32m, queries, budget, tape: TapeSpec::prng(tape_seed), kind: "svr".into(), ctor: (seed % 4) as u8 }
         }
         _ => {
             // SVC batches
@@ -1161,7 +1162,7 @@ fn gen_case(batch: &str, index: u64, seed: u64) -> Case {
                 }
                 _ => panic!("unknown batch {}", batch),
             }
-            Case { model: "svc".into(), x, y, kernel, c, tol, epoch, eps: 0.0, f32m, queries, budget: DEFAULT_BUDGET, tape, kind, ctor: (seed % 2) as u8 }
+            Case { model: "svc".into(), x, y, kernel, c, tol, epoch, eps: 0.0, f32m, queries, budget: DEFAULT_BUDGET, tape, kind, ctor: (seed % 4) as u8 }
         }
     }
 }
